@@ -183,12 +183,12 @@ static void run_case(int nf, struct field *f)
 		snprintf(h_base, sizeof(h_base), "%s/t.%ld", exe, (long)getpid());
 	}
 	h_ninj = 0;
-	if (nf != 7 || f[0].len != 1 || (f[0].p[0] != 0xc1 && f[0].p[0] != 0xc2 && f[0].p[0] != 0xc3)) { out_str("BADCASE"); return; }
+	if (nf != 7 || f[0].len != 1 || (f[0].p[0] < 0xc1 || f[0].p[0] > 0xc4)) { out_str("BADCASE"); return; }
 	const int op = f[0].p[0];
 	if ((op == 0xc2 || op == 0xc3) && f[6].len) { out_str("BADCASE"); return; }
 	struct field *cdb = &f[1], *dom = &f[2], *lay = &f[3], *bnc = &f[4], *loc = &f[5], *tail = &f[6];
 	if (op != 0xc3 && (memchr(dom->p, 0, dom->len) || memchr(loc->p, 0, loc->len))) { out_str("BADCASE"); return; }
-	if (memchr(tail->p, 0, tail->len)) { out_str("BADCASE"); return; }
+	if (op != 0xc4 && memchr(tail->p, 0, tail->len)) { out_str("BADCASE"); return; }
 
 	rm_rf(h_base);
 	cwdfd = (open)(".", O_RDONLY);
@@ -300,9 +300,21 @@ static void run_case(int nf, struct field *f)
 			userconf_free(&ds);
 			out_str(" "); out_int(count_fds() - base);
 		}
-	} else if (op == 0xc2) {
+	} else if (op == 0xc2 || op == 0xc4) {
 		struct userconf ds;
 		userconf_init(&ds);
+		/* c4: RCPT TO:<local@[iptext]>; tail = <localip> NUL <iptext>, the domain field is liphost */
+		struct field lit = { NULL, 0 };
+		if (op == 0xc4) {
+			unsigned char *z = memchr(tail->p, 0, tail->len);
+			if (!z || (size_t)(z - tail->p) >= sizeof(xmitstat.localip) || memchr(z + 1, 0, tail->len - (z + 1 - tail->p))) BAD;
+			memcpy(xmitstat.localip, tail->p, z - tail->p + 1);
+			lit.len = tail->len - (z + 1 - tail->p) + 2;
+			lit.p = malloc(lit.len + 1);
+			lit.p[0] = '['; memcpy(lit.p + 1, z + 1, lit.len - 2); lit.p[lit.len - 1] = ']'; lit.p[lit.len] = 0;
+			liphost.s = malloc(dom->len + 1); memcpy(liphost.s, dom->p, dom->len); liphost.s[dom->len] = 0; liphost.len = dom->len;
+			dom = &lit;
+		}
 		/* "local@domain>" as it stands in linein after "RCPT TO:<", rcpthosts = the lower-cased domain */
 		char *in = malloc(loc->len + dom->len + 3);
 		memcpy(in, loc->p, loc->len); in[loc->len] = '@'; memcpy(in + loc->len + 1, dom->p, dom->len);
@@ -336,6 +348,7 @@ static void run_case(int nf, struct field *f)
 		free(probes);
 		userconf_free(&ds);
 		free(addr.s); free(in); free(rh);
+		if (op == 0xc4) { free(lit.p); free(liphost.s); liphost.s = NULL; liphost.len = 0; xmitstat.localip[0] = 0; }
 	} else {
 		struct userconf ds;
 		userconf_init(&ds);
